@@ -428,6 +428,7 @@ class Acc:
         self.viol, self.margins, self.mon, self.cells, self.notes = [], {}, {}, [], []
         self.nontrivial = False
         self.guard_fail = None
+        self.sig_bad = False      # sticky per case: the sigma-builder monitor disagreed with the dense matrices
         self.info = {}
 
     def note_max(self, name, val):
@@ -658,8 +659,10 @@ def _judge(acc, mol, b, run, cache, do_sigma=True):
     E, X, Y, leak, pad = _amps(mol, b, xm, ref, hetero)
     m = len(E)
     solver, start = run["solver"], run["start"]
-    sig_bad = (ref["sigma_dA"] is not None and ref["sigma_dA"] > SIGMA_TOL) or \
-              (xm == "rpa" and ref["sigma_dB"] is not None and ref["sigma_dB"] > SIGMA_TOL)
+    if (ref["sigma_dA"] is not None and ref["sigma_dA"] > SIGMA_TOL) or \
+            (xm == "rpa" and ref["sigma_dB"] is not None and ref["sigma_dB"] > SIGMA_TOL):
+        acc.sig_bad = True
+    sig_bad = acc.sig_bad
 
     st = (run.get("stag") or {}).get(b)
     stag_exit = bool(st and st["exit"])
@@ -692,7 +695,7 @@ def _judge(acc, mol, b, run, cache, do_sigma=True):
     wit = {"label": run["label"], "molecule_in_batch": b, "tol": tol, "n_states": n_req, "nov": nov, "window": window,
            "solver": solver, "start": start, "davidson_sigma_builds": run.get("iters"),
            "sigma_vs_dense": [ref["sigma_dA"], ref["sigma_dB"]], "returned": E.tolist(), "stagnation": st}
-    rec = {"E": E, "ref": ref, "X": X, "ok": True}
+    rec = {"E": E, "ref": ref, "X": X, "ok": True, "Etot": float(mol.Etot[b]), "label": run["label"]}
     acc.m("solves_judged")
     acc.cells.append("%s/%s/tol%g/%s" % (solver, start, tol, "window" if window else "full"))
     if nov > m and (run.get("iters") or 0) >= 2:
@@ -851,6 +854,13 @@ def _levels(lam, m, sep):
 def _compare_runs(acc, base, var, tol_b, tol_v, n_req, nov, what, mech):
     """same answer from every start / history / batch composition: energies, and level projectors in the AO basis."""
     if not (base and var and base.get("ok") and var.get("ok")):
+        return
+    if abs(base["Etot"] - var["Etot"]) > 1e-5:
+        # the two runs sit on different SCF solutions: a ground-state matter (C03/C05), the CIS comparison is meaningless
+        acc.m("cross_run_skipped_different_scf_solution")
+        if len(acc.notes) < 6:
+            acc.notes.append("different SCF solutions: %s Etot=%.6f lowest CIS %.4f | %s Etot=%.6f lowest CIS %.4f" % (
+                base["label"], base["Etot"], base["E"][0], var["label"], var["Etot"], var["E"][0]))
         return
     Eb, Ev = base["E"], var["E"]
     n = min(n_req, len(Eb), len(Ev))
